@@ -6,6 +6,8 @@ import Falcon.Model.Ntt
 import Falcon.Model.Hash
 import Falcon.Model.Verify
 import Falcon.Model.Sampler
+import Falcon.Model.Zp
+import Falcon.Model.RingZ
 import Falcon.Spec.Codec
 /- dispatch of one line-protocol op to the model -/
 namespace Falcon.Driver
@@ -109,6 +111,22 @@ def execOp (chk : Bool) (tok : List String) : String :=
       let stream := parseHex hx
       renderRes (fun o => match o with | none => "Exhausted" | some (z, used) => s!"{z} {used}")
         (Sampler.samplerZ chk (fbits mu) (fbits sg) (fbits sm) (stream.length / 17 + 1) stream 0)
+  | ["u32f_new", v] => renderRes toString (Zp.new chk (parseInt v))
+  | ["u32f_balanced", a] => renderRes toString (Zp.balanced chk (parseNat a))
+  | ["u32f_add", a, b] => toString (Zp.add (parseNat a) (parseNat b))
+  | ["u32f_sub", a, b] => renderRes toString (Zp.sub chk (parseNat a) (parseNat b))
+  | ["u32f_mul", a, b] => toString (Zp.mul (parseNat a) (parseNat b))
+  | ["u32f_inv", a] => toString (Zp.inv (parseNat a))
+  | ["u32f_fft", a] => let v := parseNats a; renderInts (Zp.ntt (Ntt.log2 v.length) v)
+  | ["u32f_ifft", a] => let v := parseNats a; renderRes renderInts (Zp.intt (Ntt.log2 v.length) v)
+  | ["u32f_ntt_mul", a, b] =>
+      let va := parseNats a; let vb := parseNats b; let d := Ntt.log2 va.length
+      renderRes renderInts (Zp.intt d (List.zipWith Zp.mul (Zp.ntt d va) (Zp.ntt d vb)))
+  | ["babai", _, _, _, _, _] => "skip"
+  | ["babai_inv", n, f, g, cf, cg, a, b] =>
+      let n := parseNat n; let f := parseInts f; let g := parseInts g
+      if RingZ.ntruLhs n f g (parseInts cf) (parseInts cg) == RingZ.ntruLhs n f g (parseInts a) (parseInts b)
+      then "same" else "differ"
   | _ => "bad-op"
 
 end Falcon.Driver
